@@ -98,24 +98,10 @@ def check_chunk_tasks(ctx, recs):
 def run_tlaps(ctx):
     """unbounded proof of the chunking arithmetic (spec/ChunksProof.tla) with the TLA+ proof system; AsmSched's invariant
     ChunksAsProved ties the bounded model to the module the proof is about"""
-    import shutil
-    if shutil.which('tlapm') is None:
-        ctx.notes['tlaps'] = 'tlapm not installed: unbounded proof of the chunking arithmetic not re-checked'
-        return
-    d = ctx.scratch / 'tlaps'
-    d.mkdir(exist_ok=True)
-    shutil.copy(str(VERIF / 'spec' / 'ChunksProof.tla'), str(d / 'ChunksProof.tla'))
-    try:
-        p = subprocess.run(['tlapm', '--threads', '4', '--cleanfp', 'ChunksProof.tla'], cwd=str(d), stdout=subprocess.PIPE,
-                           stderr=subprocess.STDOUT, text=True, timeout=900)
-    except subprocess.TimeoutExpired:
-        ctx.notes['tlaps'] = 'tlapm timed out (no verdict)'
-        return
-    import re
-    m = re.search(r'All (\d+) obligations proved', p.stdout)
-    if not m:
-        raise MachineryError('TLAPS could not re-check spec/ChunksProof.tla:\n' + p.stdout[-1500:])
-    ctx.notes['tlaps'] = 'ChunksProof.tla: all %s proof obligations proved (StepPositive, AtMostK, NonEmptyConsecutive, Covers for all len, k)' % m.group(1)
+    from ..common import run_tlaps as _tl
+    _tl(ctx, 'ChunksProof', 'StepPositive, AtMostK, NonEmptyConsecutive, Covers for all len, k')
+    if 'tlaps_ChunksProof' in ctx.notes:
+        ctx.notes['tlaps'] = ctx.notes['tlaps_ChunksProof']
 
 
 def launch(ctx, name, job):
